@@ -45,6 +45,13 @@ B(b) == IF b THEN 1 ELSE 0
 (* op: name, x (item or index), ops (sequence of operand sequences) *)
 Op(name, x, ops) == [op |-> name, x |-> x, ops |-> ops]
 
+SortKey(e) == e % 3
+StableBy(s, rev) ==
+  LET before(i, j) == \/ (IF rev THEN SortKey(s[i]) > SortKey(s[j]) ELSE SortKey(s[i]) < SortKey(s[j]))
+                      \/ (SortKey(s[i]) = SortKey(s[j]) /\ i < j)
+      order == SortSeq([i \in 1..Len(s) |-> i], before)
+  IN [i \in 1..Len(s) |-> s[order[i]]]
+
 Outcomes(st, o) ==
   LET s == st.it  x == o.x IN
   CASE o.op = "add"     -> {Out(St(IF x \in Elems(s) THEN s ELSE Append(s, x)), Ok(<<>>))}
@@ -58,6 +65,11 @@ Outcomes(st, o) ==
               ELSE {Out(St(Without(s, PyIndex(s, i))), Ok(<<PyIndex(s, i)>>))}
     [] o.op = "clear"   -> {Out(St(<<>>), Ok(<<>>))}
     [] o.op = "sort"    -> {Out(St(SortSeq(s, <)), Ok(<<>>))}
+    (* sort(reverse=True), sort(key=item mod 3), sort(key=item mod 3, reverse=True): list.sort is stable, also when *)
+    (* reversed - items with equal keys keep the order they had                                                     *)
+    [] o.op = "sort_rev" -> {Out(St(Rev(SortSeq(s, <))), Ok(<<>>))}
+    [] o.op = "sort_key" -> {Out(St(StableBy(s, FALSE)), Ok(<<>>))}
+    [] o.op = "sort_key_rev" -> {Out(St(StableBy(s, TRUE)), Ok(<<>>))}
     [] o.op = "reverse" -> {Out(St(Rev(s)), Ok(<<>>))}
     (* in place: update / |= ; intersection_update / &= ; difference_update / -= ; symmetric_difference_update / ^= *)
     [] o.op = "update"               -> {Out(St(Union(s, o.ops)), Ok(<<>>))}
